@@ -297,11 +297,13 @@ fn neighbourhood<V: Variant>(base: [u8; 32], w: usize) -> RunOutcome {
     let items: Vec<u64> = (0..257).collect();
     let job = |i: u64| -> Vec<u8> {
         let s = seed_with_bit(&base, i as i64 - 1);
-        match world::keygen_sim::<V>(s, None, None).0 {
+        let (r, tr) = world::keygen_sim::<V>(s, None, None);
+        match r {
             Ok((sk, pk)) => {
                 let mut v = vec![0u8];
                 v.extend_from_slice(&hash_bytes(0, &V::sk_to_bytes(&sk)).to_le_bytes());
                 v.extend_from_slice(&hash_bytes(0, &V::pk_to_bytes(&pk)).to_le_bytes());
+                v.extend_from_slice(&tr.attempts.to_le_bytes());
                 v
             }
             Err(u) => {
@@ -313,9 +315,13 @@ fn neighbourhood<V: Variant>(base: [u8; 32], w: usize) -> RunOutcome {
     };
     let raw = crate::isolate::fork_map(&items, w, None, &job);
     let mut results: BTreeMap<usize, Result<(Vec<u8>, Vec<u8>), String>> = BTreeMap::new();
+    let mut attempts: Vec<(u64, u64)> = Vec::new();
     for i in 0..257u64 {
         let r = match raw.get(&i) {
-            Some(Ok(b)) if b.len() == 17 && b[0] == 0 => Ok((b[1..9].to_vec(), b[9..17].to_vec())),
+            Some(Ok(b)) if b.len() == 25 && b[0] == 0 => {
+                attempts.push((u64::from_le_bytes(b[17..25].try_into().unwrap()), i));
+                Ok((b[1..9].to_vec(), b[9..17].to_vec()))
+            }
             Some(Ok(b)) => Err(String::from_utf8_lossy(&b[1.min(b.len())..]).to_string()),
             Some(Err(f)) => Err(f.describe()),
             None => Err("no result".into()),
@@ -325,6 +331,34 @@ fn neighbourhood<V: Variant>(base: [u8; 32], w: usize) -> RunOutcome {
     let mut out = RunOutcome::default();
     let mut st = Stats::default();
     st.inc("neighbourhoods");
+    // adaptive repetition: the seeds whose key generation took the most attempts (its rarest
+    // internal branch) are generated twice more, each time in a fresh process
+    attempts.sort_by(|a, b| b.cmp(a));
+    let hardest: Vec<u64> = attempts.iter().take(6).map(|x| x.1).collect();
+    let items2: Vec<u64> = hardest.iter().flat_map(|&i| [i, i + 1000]).collect();
+    let job2 = |j: u64| job(j % 1000);
+    let again = crate::isolate::fork_map(&items2, w, None, &job2);
+    for &i in &hardest {
+        st.inc("hard_seed_repetitions");
+        st.add("hard_seed_max_attempts", 0);
+        let first = raw.get(&i).and_then(|r| r.as_ref().ok()).map(|b| b[1..17].to_vec());
+        for k in [i, i + 1000] {
+            let other = again.get(&k).and_then(|r| r.as_ref().ok()).filter(|b| b.len() == 25 && b[0] == 0).map(|b| b[1..17].to_vec());
+            if first.is_some() && other.is_some() && first != other && !out.violations.iter().any(|v: &Violation| v.class.contains("different key pairs")) {
+                let sd = seed_with_bit(&base, i as i64 - 1);
+                out.violations.push(Violation {
+                    property: PROP,
+                    class: format!("keygen{} returned different key pairs for the same seed", V::N),
+                    detail: format!("seed {} generated three times in fresh processes (it needs {} ntru_gen attempts)", hex(&sd), attempts.iter().find(|a| a.1 == i).map(|a| a.0).unwrap_or(0)),
+                    replay: json!({"kind": "repeat", "n": V::N, "seed_hex": hex(&sd), "times": 4}),
+                    run: 1 << 41,
+                });
+            }
+        }
+    }
+    if let Some(m) = attempts.first() {
+        st.add("hard_seed_attempts_of_the_hardest", m.0);
+    }
     let mut seen: BTreeMap<u64, usize> = BTreeMap::new();
     for (i, r) in results.iter() {
         st.evaluations += 1;
@@ -360,6 +394,139 @@ fn neighbourhood<V: Variant>(base: [u8; 32], w: usize) -> RunOutcome {
     out
 }
 
+/// keygen of `seed` in a fresh process: (sk bytes, pk bytes)
+fn fresh(n: usize, seed: &[u8; 32]) -> Result<(Vec<u8>, Vec<u8>), String> {
+    in_child(n, seed)
+}
+
+fn gen_here(n: usize, seed: [u8; 32]) -> Result<(Vec<u8>, Vec<u8>), String> {
+    if n == 512 {
+        world::keygen_sim::<V512>(seed, None, None).0.map(|(sk, pk)| (V512::sk_to_bytes(&sk), V512::pk_to_bytes(&pk))).map_err(|u| u.signature())
+    } else {
+        world::keygen_sim::<V1024>(seed, None, None).0.map(|(sk, pk)| (V1024::sk_to_bytes(&sk), V1024::pk_to_bytes(&pk))).map_err(|u| u.signature())
+    }
+}
+
+/// A sequence of keygens of both variants on ONE thread of one process, each compared with the
+/// same seed generated in a fresh process: state kept per thread or per process and not keyed by
+/// the variant would make the result depend on what was generated before.
+fn mixed_sequence(seq: &[(usize, [u8; 32])]) -> (Option<(String, String)>, Stats) {
+    let mut st = Stats::default();
+    let mut here = Vec::new();
+    for (n, s) in seq {
+        st.evaluations += 1;
+        st.inc("mixed.keygen_calls");
+        match gen_here(*n, *s) {
+            Ok(k) => here.push(k),
+            Err(e) => return (Some((format!("keygen{} fails on a seed: {}", n, e), format!("seed {}", hex(s)))), st),
+        }
+    }
+    for (i, (n, s)) in seq.iter().enumerate() {
+        match fresh(*n, s) {
+            Ok(k) => {
+                st.inc("fault.P1_fresh_process");
+                if k != here[i] {
+                    return (
+                        Some((
+                            format!("keygen{} returned different key pairs for the same seed", n),
+                            format!("seed {}: call {} of a mixed-variant sequence on one thread vs a fresh process", hex(s), i),
+                        )),
+                        st,
+                    );
+                }
+            }
+            Err(e) => return (Some((format!("keygen{} failed in a fresh process", n), e)), st),
+        }
+        st.distinct.insert(hash_bytes(*n as u64, s));
+    }
+    (None, st)
+}
+
+fn seq_json(seq: &[(usize, [u8; 32])]) -> Value {
+    json!({"kind": "mixed-keygen", "seq": seq.iter().map(|(n, s)| json!([n, hex(s)])).collect::<Vec<_>>()})
+}
+
+fn mixed_run(seed: u64, run: u64) -> RunOutcome {
+    let mut rng = Prng::new(report::run_seed(seed, "C15mixed", run));
+    // starts with either variant; 512 keygens are cheap, so there are more of them
+    let mut seq: Vec<(usize, [u8; 32])> = Vec::new();
+    let first1024 = rng.chance(2, 3);
+    if first1024 {
+        seq.push((1024, rng.seed32()));
+    }
+    for _ in 0..4 {
+        seq.push((512, rng.seed32()));
+    }
+    if !first1024 {
+        seq.push((1024, rng.seed32()));
+        seq.push((512, rng.seed32()));
+    }
+    let (class, st) = mixed_sequence(&seq);
+    let mut out = RunOutcome::default();
+    out.stats = st;
+    out.stats.inc("runs");
+    out.stats.inc("runs.mixed_variant");
+    if let Some((class, detail)) = class {
+        // minimise: a 1024 keygen followed by one 512 keygen, if that suffices
+        let mut best = seq.clone();
+        for i in 0..seq.len() {
+            for j in 0..seq.len() {
+                if i != j && seq[i].0 != seq[j].0 {
+                    let cand = vec![seq[i], seq[j]];
+                    let r = crate::isolate::isolated(|| mixed_sequence(&cand).0.map(|c| c.0).unwrap_or_default().into_bytes(), crate::isolate::run_timeout_s());
+                    if matches!(&r, Ok(b) if b == class.as_bytes()) && cand.len() < best.len() {
+                        best = cand;
+                    }
+                }
+            }
+        }
+        out.violations.push(Violation { property: PROP, class, detail, replay: seq_json(&best), run });
+    }
+    out
+}
+
+/// pinned seeds whose key generation takes a rare branch (many attempts, a range rejection):
+/// "<n> <counter>" lines in corpus/C15/hard-seeds.txt; each is generated three times in fresh processes
+pub fn pinned_hard() -> Vec<(usize, u64)> {
+    let p = report::verif_root().join("corpus").join(PROP).join("hard-seeds.txt");
+    let mut v = Vec::new();
+    if let Ok(s) = std::fs::read_to_string(p) {
+        for l in s.lines() {
+            let l = l.trim();
+            if l.is_empty() || l.starts_with('#') {
+                continue;
+            }
+            let mut it = l.split_whitespace();
+            if let (Some(a), Some(b)) = (it.next(), it.next()) {
+                if let (Ok(n), Ok(c)) = (a.parse::<usize>(), b.parse::<u64>()) {
+                    if n == 512 || n == 1024 {
+                        v.push((n, c));
+                    }
+                }
+            }
+        }
+    }
+    v
+}
+
+fn repeat_seed(n: usize, seed: [u8; 32], times: usize) -> Option<String> {
+    let mut first: Option<(Vec<u8>, Vec<u8>)> = None;
+    for _ in 0..times {
+        match fresh(n, &seed) {
+            Ok(k) => match &first {
+                None => first = Some(k),
+                Some(f) => {
+                    if *f != k {
+                        return Some(format!("keygen{} returned different key pairs for the same seed", n));
+                    }
+                }
+            },
+            Err(e) => return Some(format!("keygen{} failed in a fresh process: {}", n, e)),
+        }
+    }
+    None
+}
+
 fn seed_with_bit(base: &[u8; 32], bit: i64) -> [u8; 32] {
     let mut s = *base;
     if bit >= 0 {
@@ -380,6 +547,23 @@ pub fn replay(doc: &Value) -> Option<String> {
                 let k = signers::regenerate_keys::<V1024>(&plan).ok()?;
                 run_plan::<V1024>(&plan, k, true).class.map(|c| c.0)
             }
+        }
+        "mixed-keygen" => {
+            let seq: Vec<(usize, [u8; 32])> = doc
+                .get("seq")?
+                .as_array()?
+                .iter()
+                .map(|e| {
+                    let a = e.as_array()?;
+                    Some((a.get(0)?.as_u64()? as usize, unhex(a.get(1)?.as_str()?)?.try_into().ok()?))
+                })
+                .collect::<Option<Vec<_>>>()?;
+            mixed_sequence(&seq).0.map(|c| c.0)
+        }
+        "repeat" => {
+            let n = doc.get("n")?.as_u64()? as usize;
+            let seed: [u8; 32] = unhex(doc.get("seed_hex")?.as_str()?)?.try_into().ok()?;
+            repeat_seed(n, seed, doc.get("times").and_then(|t| t.as_u64()).unwrap_or(3) as usize)
         }
         "neighbours" => {
             let n = doc.get("n")?.as_u64()? as usize;
@@ -419,6 +603,7 @@ pub struct Ctx {
     pub o1024: usize,
     pub nb512: usize,
     pub nb1024: usize,
+    pub mixed: u64,
 }
 
 pub fn context(tier: Tier, seed: u64) -> Result<Ctx, String> {
@@ -435,7 +620,8 @@ pub fn context(tier: Tier, seed: u64) -> Result<Ctx, String> {
     if p512.keys.is_empty() || p1024.keys.is_empty() {
         return Err("shared signing key could not be generated on the current tree".into());
     }
-    Ok(Ctx { shared: [0u8; 32], p512, p1024, r512, s512, o512, r1024, s1024, o1024, nb512, nb1024 })
+    let mixed = if tier == Tier::Quick { 6 } else { 60 };
+    Ok(Ctx { shared: [0u8; 32], p512, p1024, r512, s512, o512, r1024, s1024, o1024, nb512, nb1024, mixed })
 }
 
 fn dispatch(ctx: &Ctx, seed: u64, run: u64) -> RunOutcome {
@@ -452,14 +638,16 @@ fn dispatch(ctx: &Ctx, seed: u64, run: u64) -> RunOutcome {
     }
     if run < ctx.r1024 {
         go::<V1024>(seed, run, &ctx.p1024.keys[0], ctx.s1024, ctx.o1024)
-    } else {
+    } else if run < ctx.r1024 + ctx.r512 {
         go::<V512>(seed, run, &ctx.p512.keys[0], ctx.s512, ctx.o512)
+    } else {
+        mixed_run(seed, run)
     }
 }
 
 pub fn runner(tier: Tier, seed: u64) -> Option<(u64, Box<dyn Fn(u64) -> RunOutcome + Sync>)> {
     let ctx = context(tier, seed).ok()?;
-    let n = ctx.r512 + ctx.r1024;
+    let n = ctx.r512 + ctx.r1024 + ctx.mixed;
     Some((n, Box::new(move |run| dispatch(&ctx, seed, run))))
 }
 
@@ -479,11 +667,37 @@ pub fn check(tier: Tier, seed: u64) -> i32 {
         }
     };
     let _ = ctx.shared;
-    let out = report::parallel_runs(ctx.r512 + ctx.r1024, w, |run| dispatch(&ctx, seed, run));
+    let out = report::parallel_runs(ctx.r512 + ctx.r1024 + ctx.mixed, w, |run| dispatch(&ctx, seed, run));
     rep.absorb(out);
     if rep.stats.counters.get("harness.pool_key_not_loadable").copied().unwrap_or(0) > 0 {
         eprintln!("HARNESS-ERROR: {:?}", rep.stats.notes);
         return 2;
+    }
+    // pinned hard seeds, three generations each, every one in a fresh process
+    {
+        let pins = pinned_hard();
+        let items: Vec<u64> = (0..pins.len() as u64).collect();
+        let job = |i: u64| -> Vec<u8> {
+            let (n, c) = pins[i as usize];
+            repeat_seed(n, crate::rng::counter_seed(c), 3).unwrap_or_default().into_bytes()
+        };
+        let res = crate::isolate::fork_map(&items, w, None, &job);
+        for (i, r) in res {
+            rep.stats.inc("pinned_hard_seeds");
+            rep.stats.evaluations += 3;
+            let (n, c) = pins[i as usize];
+            if let Ok(b) = r {
+                if !b.is_empty() {
+                    rep.violations.push(Violation {
+                        property: PROP,
+                        class: String::from_utf8_lossy(&b).to_string(),
+                        detail: format!("pinned hard seed {} {}", n, c),
+                        replay: json!({"kind": "repeat", "n": n, "seed_hex": hex(&crate::rng::counter_seed(c)), "times": 4}),
+                        run: (1 << 41) + 7,
+                    });
+                }
+            }
+        }
     }
     for i in 0..ctx.nb512 {
         let mut r = Prng::new(report::run_seed(seed, "C15nb512", i as u64));
@@ -495,7 +709,7 @@ pub fn check(tier: Tier, seed: u64) -> i32 {
         let o = neighbourhood::<V1024>(r.seed32(), w);
         rep.absorb(o);
     }
-    rep.rule = "a case is one keygen(seed) call: (i) inside a seeded multi-thread plan where every seed occurs 2-3 times on the same or different baton-scheduled threads (pre-emption at the draws of keygen's seed-expanded stream and of concurrent sign calls), with or without a simulator stream installed behind the ambient seam, plus once in a fresh child process; (ii) on one of the 256 single-bit neighbours of a sampled base seed (the neighbourhood of each sampled base seed is enumerated completely; base seeds are sampled). Non-trivial for (i): the call was pre-empted mid-call; for (ii): every neighbour. Distinct = distinct (schedule trace, thread, seed) resp. distinct key pairs".into();
+    rep.rule = "a case is one keygen(seed) call: (i) inside a seeded multi-thread plan where every seed occurs 2-3 times on the same or different baton-scheduled threads (pre-emption at the draws of keygen's seed-expanded stream and of concurrent sign calls), with or without a simulator stream installed behind the ambient seam, plus once in a fresh child process; (ii) in a mixed-variant sequence of keygens on one thread, each compared with a fresh process; (iii) three times in fresh processes for the seeds that need the most ntru_gen attempts (adaptively chosen from the neighbourhoods, and pinned in corpus/C15/hard-seeds.txt); (iv) on one of the 256 single-bit neighbours of a sampled base seed (the neighbourhood of each sampled base seed is enumerated completely; base seeds are sampled). Non-trivial for (i): the call was pre-empted mid-call; for (ii): every neighbour. Distinct = distinct (schedule trace, thread, seed) resp. distinct key pairs".into();
     rep.assumptions = vec![
         "keygen is stopped after 3000 ntru_gen attempts' worth of draws (bounded liveness; a correct tree needs 13 resp. 24 attempts on average)".into(),
         "an ambient-entropy draw inside keygen is recorded as a probe, not an alarm; only differing key bytes are".into(),
